@@ -871,6 +871,23 @@ pub fn judge(s: &Scn, method: &str, o: &Obs) -> Vec<Value> {
             }
         }
     };
+    // C14: echoing the served Last-Modified (modification time truncated to the second, when it
+    // is not in the future) gets the cache-friendly answer
+    if let Some(m) = s.mtime {
+        let trunc = m.duration_since(UNIX_EPOCH).map(|d| d.as_secs()).unwrap_or(0);
+        let served = httpdate::fmt_http_date(UNIX_EPOCH + std::time::Duration::from_secs(trunc));
+        let in_past = m <= SystemTime::now();
+        if in_past && (method == "GET" || method == "HEAD") {
+            if get(&s.headers, "if-match").is_none() && get(&s.headers, "if-unmodified-since") == Some(served.as_bytes()) && o.status == 412 {
+                v.add("C14", "If-Unmodified-Since with the served Last-Modified answered 412");
+            }
+            if get(&s.headers, "if-none-match").is_none() && get(&s.headers, "if-match").is_none() && get(&s.headers, "if-unmodified-since").is_none()
+                && get(&s.headers, "if-modified-since") == Some(served.as_bytes()) && o.status != 304
+            {
+                v.add("C14", format!("If-Modified-Since with the served Last-Modified answered {}, not 304", o.status));
+            }
+        }
+    }
     let exp = match exp {
         Expect::Full | Expect::Unsat | Expect::Single(..) | Expect::Multi(_)
             if o.status == 412 || o.status == 304 || o.status == 400 =>
